@@ -134,6 +134,9 @@ struct Solver {
     last_assumptions: Vec<Term>,
     core_mode: String,
     diversify: u64,
+    /// deterministic effort bound per session: number of satisfiability queries answered
+    max_checks: Option<u64>,
+    nchecks: u64,
     pushed_for_diversification: u32,
     fault: Option<(String, u64)>,
     counter_file: Option<String>,
@@ -391,6 +394,15 @@ impl Solver {
                 Ok(Sort::Bool) => {}
                 Ok(s) => return self.reject(text, &format!("ill-sorted: assumption has sort {}", s.show())),
                 Err(m) => return self.reject(text, &m),
+            }
+        }
+        self.nchecks += 1;
+        if let Some(m) = self.max_checks {
+            if self.nchecks > m {
+                self.last = Last::None;
+                self.log(json!({"i": self.cmd_index, "cmd": text, "budget": "session over its query budget"}));
+                out(&format!("(error \"refsolver-budget: more than {m} satisfiability queries in one session\")"));
+                return;
             }
         }
         // undo diversification scopes of the previous check
@@ -734,6 +746,8 @@ fn main() {
         last_assumptions: vec![],
         core_mode: std::env::var("REFSOLVER_CORE").unwrap_or_else(|_| "minimal".into()),
         diversify: std::env::var("REFSOLVER_DIVERSIFY").ok().and_then(|s| s.parse().ok()).unwrap_or(0),
+        max_checks: std::env::var("REFSOLVER_MAX_CHECKS").ok().and_then(|s| s.parse().ok()),
+        nchecks: 0,
         pushed_for_diversification: 0,
         fault,
         counter_file: std::env::var("REFSOLVER_COUNTER").ok(),
